@@ -1050,7 +1050,8 @@ class PiecewiseLinearCoalescentGrid(Distribution):
         diff_thetas = pop_sizes[..., 2:] - pop_sizes[..., 1:-1]
         diff_log_thetas = log_pop_sizes[..., 2:] - log_pop_sizes[..., 1:-1]
 
-        integral = intervals / thetas[..., -1:]
+        # constant population size over the interval: its own size, not the last one
+        integral = intervals / pop_sizes[..., 1:-1]
         idx = (diff_thetas != 0.0).nonzero(as_tuple=True)
         integral[idx] = intervals[idx] * diff_log_thetas[idx] / diff_thetas[idx]
 
